@@ -205,6 +205,8 @@ def rule_init_complete(ctx, fl):
 def run(ctx):
     for fl in flavours(ctx):
         ctx.unit = fl
+        ctx.doc('C05.5', 'native API forwarding: each public entry point of this property reaches the implementation of the same name with its parameters in order and returns its result (sibling slips such as trylock -> lock, signal -> broadcast, swapped arguments)')
+        lib.native_forwarding(ctx, 'C05.5', fl, lambda n: n.startswith(('myth_cond_', 'myth_condattr_')), floor=6)
         rule_init_complete(ctx, fl)
         rule1_cb_order(ctx, fl)
         rule2_wait(ctx, fl)
@@ -213,6 +215,8 @@ def run(ctx):
 
 SYNC = 'src/myth_sync_func.h'
 MUTANTS = [
+    {'name': 'native myth_cond_signal forwards to broadcast', 'expect': 'C05.5',
+     'edits': [('src/myth_if_native.c', "  return myth_cond_signal_body(cond);", "  return myth_cond_broadcast_body(cond);")]},
     {'name': 'callback releases the mutex only when none was handed over (sweep M0202)', 'expect': 'C05.1',
      'edits': [(SYNC, "  myth_sleep_queue_enq_th(q, cur);\n  if (m) {", "  myth_sleep_queue_enq_th(q, cur);\n  if (!(m)) {")]},
     {'name': 'cond_init forgets the sleep queue', 'expect': 'C05.4',
